@@ -304,6 +304,11 @@ func createShimChannel(ctx context.Context, host, shimPath string, rewriteHost b
 		targetURL := *(r.URL)
 		targetURL.Scheme = "ws"
 		targetURL.Host = host
+		// Only the path and query of the client-supplied URL are used. An opaque
+		// URL (e.g. "x:y") would otherwise be rendered as "ws:y", dropping the
+		// host set above, and user info is rejected by the websocket dialer.
+		targetURL.Opaque = ""
+		targetURL.User = nil
 		if originalHost := r.Host; rewriteHost && originalHost != "" {
 			r.Header.Set("Host", originalHost)
 		}
